@@ -1,4 +1,9 @@
-"""C17 - generate() forgets the object's past."""
+"""C17 - generate() forgets the object's past.
+
+Fourth round (`circumstances`; interpreter in harness/u2_util.py): histories run in FRESH interpreters (python and
+python -O) and judged against a new object in a fresh plain interpreter - a past kept at class level pollutes a new object
+of the same process as well -, with other models alive, with observers, through the command line; the digest of all
+module- and class-level data is taken after every operation."""
 import os
 
 import copy
@@ -686,6 +691,197 @@ def third_round_histories(chk, work, uwg):
                'same deep digest after the whole history as before', mismatches=c3['bad'], branches=c3['br'])
 
 
+# ----------------------------------------------------------------------------------------------------------
+# Fourth round: circumstances. "A fresh object in the same process" is no reference when the past lives at class
+# level (it pollutes the fresh object as well), and nothing of the above runs under `python -O` or through the
+# command line. Every history below is therefore run by harness/u2_util.run_scenario in a FRESH interpreter, plain
+# and optimised, and judged against a fresh object in a fresh plain interpreter that has done nothing else.
+def circumstance_members(work, quick):
+    import simdriver
+    base = [['nday', 1], ['dtsim', 300], ['bld', [list(r) for r in STOCK]], ['zone', '1A']]
+    toronto = simdriver.epw_path(simdriver.EPWS[2])
+    # a custom that REPLACES a DOE archetype of the stock and brings its own schedule set and plant
+    a_doe = [{'type': 'largeoffice', 'era': 'pst80', 'src': [3, 1, 0], 'bem': {'building.heateff': 0.7, 'wall.albedo': 0.35},
+              'sch': {'q_elec': 43.04, 'cool': {'const': 18.0}, 'occ': {'const': 1.0}}}]
+    a_mid = [{'type': 'midriseapartment', 'era': 'pst80', 'src': [5, 1, 0], 'bem': {'roof.albedo': 0.6},
+              'sch': {'q_light': 30.0, 'heat': {'const': 23.0}}}]
+    a_new = [{'type': 'labtower', 'era': 'new', 'src': [3, 2, 0], 'bem': {'building.infil': 0.5},
+              'sch': {'q_elec': 60.0}}]
+    lab_stock = [['bld', [['labtower', 'new', 0.5], ['midriseapartment', 'pst80', 0.5]]]]
+
+    def model(tag, attrs=(), customs=None, epw=None):
+        return {'out': [os.path.join(work, 'cc_' + tag), 'out.epw'], 'attrs': base + list(attrs), 'customs': customs,
+                'epw': epw}
+    tail = [['gen', 'B'], ['obs', 'B', 'final'], ['sim', 'B'], ['write', 'B'], ['rec', 'B', 'finalrec']]
+    refs = {'B': {}, 'A': {'customs': a_doe}, 'T': {'epw': toronto}, 'L': {'customs': a_new, 'attrs': lab_stock}}
+    # (label, reference, operations before the final generate; simulate; write_epw of model B)
+    mem = [
+        ('run twice', 'B', [['new', 'B', 'B'], ['gen', 'B'], ['sim', 'B']]),
+        ('overrides set, run, unset', 'B',
+         [['new', 'B', 'B'], ['set', 'B', 'glzr', 0.9], ['set', 'B', 'albroof', 0.7], ['set', 'B', 'shgc', 0.2],
+          ['gen', 'B'], ['sim', 'B'], ['set', 'B', 'glzr', None], ['set', 'B', 'albroof', None], ['set', 'B', 'shgc', None]]),
+        ('autosize on, run, off', 'B',
+         [['new', 'B', 'B'], ['set', 'B', 'autosize', True], ['gen', 'B'], ['sim', 'B'], ['set', 'B', 'autosize', False]]),
+        ('ANOTHER model, whose custom replaces a DOE archetype of this stock with its own schedules, generated first', 'B',
+         [['new', 'X', 'A'], ['gen', 'X'], ['new', 'B', 'B']]),
+        ('run; ANOTHER model with custom large-office AND mid-rise schedules generated and simulated; run again', 'B',
+         [['new', 'B', 'B'], ['gen', 'B'], ['sim', 'B'], ['new', 'X', 'A2'], ['gen', 'X'], ['sim', 'X']]),
+        ('ANOTHER model with overrides and autosize generated and simulated while this one waits', 'B',
+         [['new', 'B', 'B'], ['new', 'X', 'D'], ['gen', 'X'], ['sim', 'X'], ['del', 'X']]),
+        ('custom reference building (DOE archetype replaced, own schedules): run twice', 'A',
+         [['new', 'B', 'A'], ['gen', 'B'], ['sim', 'B']]),
+        ('custom reference building of a new type: override set, run, unset', 'L',
+         [['new', 'B', 'L'], ['set', 'B', 'vegroof', 0.5], ['gen', 'B'], ['sim', 'B'], ['set', 'B', 'vegroof', None]]),
+        ('rural file changed by path after a run', 'T',
+         [['new', 'B', 'B'], ['gen', 'B'], ['sim', 'B'], ['set', 'B', 'epw_path', toronto]]),
+        ('two models built from ONE dictionary object (to_dict of the model): the first gets overrides and autosize, is '
+         'generated and simulated; then the second is built', 'B',
+         [['newd', 'X', 'B'], ['set', 'X', 'glzr', 0.9], ['set', 'X', 'flr_h', 4.0], ['set', 'X', 'autosize', True], ['gen', 'X'],
+          ['sim', 'X'], ['newd', 'B', 'B']]),
+        ('run twice while somebody looks (repr / str / ToString of every reachable object after each call and every '
+         '41st step, DEBUG logging)', 'B',
+         [['new', 'B', 'B'], ['poke', 'B'], ['gen', 'B'], ['poke', 'B'], ['simp', 'B'], ['poke', 'B'], ['gen', 'B'],
+          ['poke', 'B']]),
+    ]
+    specs = {'B': {}, 'A': {'customs': a_doe}, 'A2': {'customs': a_doe + a_mid},
+             'D': {'attrs': [['glzr', 0.9], ['albwall', 0.6], ['autosize', True]]},
+             'T': {'epw': toronto}, 'L': {'customs': a_new, 'attrs': lab_stock}}
+    if quick:
+        mem = [m_ for k, m_ in enumerate(mem) if k != 5]
+    return mem, refs, specs, model, tail
+
+
+def circumstances(chk, work, uwg):
+    import generic as G
+    import u2_util as W
+    quick = chk.tier == 'quick'
+    mem, refs, specs, model, tail = circumstance_members(work, quick)
+    jobs, meta = [], {}
+
+    jsons = {}
+
+    def expand(ops, tag):
+        out = []
+        for op in ops:
+            if op[0] == 'newd':
+                if op[2] not in jsons:
+                    import json
+                    sp = specs[op[2]]
+                    jsons[op[2]] = os.path.join(work, 'cc_%s.json' % op[2])
+                    with open(jsons[op[2]], 'w') as f:
+                        json.dump(W.new_from_spec(uwg, model('json', sp.get('attrs', ()), sp.get('customs'), sp.get('epw'))
+                                                  ).to_dict(include_refDOE=True), f)
+                out.append(['newd', op[1], {'json': jsons[op[2]], 'out': [os.path.join(work, 'cc_%s_%s' % (tag, op[1])), 'out.epw']}])
+            elif op[0] == 'new':
+                sp = specs[op[2]]
+                out.append(['new', op[1], model('%s_%s' % (tag, op[1]), sp.get('attrs', ()), sp.get('customs'), sp.get('epw'))])
+            else:
+                out.append(op)
+        return out
+    for r in refs:                                      # fresh object, fresh process (plain; and optimised)
+        for opt in (False, True):
+            tag = 'ref%s%s' % (r, '-O' if opt else '')
+            jobs.append((tag, {'ops': expand([['new', 'B', r]], tag) + tail}, opt))
+    for k, (label, r, ops) in enumerate(mem):
+        for opt in (False, True):
+            tag = 'h%d%s' % (k, '-O' if opt else '')
+            looked = 'looks' in label
+            fin = tail if not looked else [['gen', 'B'], ['poke', 'B'], ['obs', 'B', 'final'], ['simp', 'B'], ['poke', 'B'],
+                                           ['write', 'B'], ['rec', 'B', 'finalrec']]
+            jobs.append((tag, {'ops': expand(ops, tag) + fin, 'debug': looked}, opt))
+            meta[tag] = (label, r, ops, opt)
+    # the command line is a route to a fresh object as well
+    import s3_util
+    pfile = s3_util.write_param_file(U.rp(U.PARAM_SGP), os.path.join(work, 'cc_cli.uwg'), {'nDay': '1'})
+    outs = W.children(jobs, work, workers=10)
+    bad, br, shown = 0, {}, {}
+
+    def report(tie, case, observed, expected, kind='differs'):
+        nonlocal bad
+        bad += 1
+        shown[kind] = shown.get(kind, 0) + 1
+        if shown[kind] <= (3 if kind == 'differs' else 1):
+            chk.violation('impl-violation', tie, case=case, observed=observed, expected=expected)
+    ref = {}
+    for r in refs:
+        rc, doc, err = outs['ref' + r]
+        if doc is None or any(x != 'ok' for x in doc['log']):
+            raise core.Infra('reference scenario %s failed in a fresh process: rc=%s %s %s' % (r, rc, doc and doc['log'], err))
+        ref[r] = doc
+    n = 0
+    for tag, (rc, doc, err) in sorted(outs.items()):
+        n += 1
+        if tag.startswith('ref'):
+            label, r, ops, opt = 'a new object in a fresh process, nothing else done', tag[3:].replace('-O', ''), [], tag.endswith('-O')
+        else:
+            label, r, ops, opt = meta[tag]
+        mode = 'python -O' if opt else 'python'
+        br[mode] = br.get(mode, 0) + 1
+        case = {'history_before_the_final_generate_simulate_write': label, 'operations': [o[:4] if o[0] not in ('new', 'newd') else
+                [o[0], o[1], 'model ' + str(o[2])] for o in ops], 'interpreter': mode + ' (fresh process)',
+                'models': {o[2]: specs[o[2]] or 'shipped Singapore parameters, 1 day, dtsim 300' for o in ops if o[0] in ('new', 'newd')}}
+        if doc is None:
+            report('generate_forgets: history in a fresh interpreter', case,
+                   'the scenario did not finish: exit status %s, %s' % (rc, err[-300:]), 'the history runs')
+            continue
+        if doc['optimized'] != opt:
+            raise core.Infra('child interpreter mode is not the requested one')
+        failed = [(i, x) for i, x in enumerate(doc['log']) if x != 'ok']
+        if failed:
+            report('generate_forgets: history in a fresh interpreter', case,
+                   'operation %d of the history %s under %s' % (failed[0][0], failed[0][1], mode),
+                   'every call of this history returns (it does in a plain interpreter on a fresh object)')
+            continue
+        d = W.diff_docs(ref[r], doc, ['final', 'finalrec'])
+        if d:
+            fo, ho = ref[r]['obs']['final'], doc['obs'].get('final') or {}
+            extra = ''
+            if fo.get('sch') != ho.get('sch'):
+                extra = '; schedule sets paired with the archetypes (type, era, digest): %s vs %s on the fresh object' % (
+                    ho.get('sch'), fo.get('sch'))
+            elif fo.get('bem') != ho.get('bem'):
+                extra = '; archetypes: %s vs %s on the fresh object' % (ho.get('bem'), fo.get('bem'))
+            report('generate_forgets / generate_depends_on_params_only: %s, %s' % (
+                'history in a fresh interpreter' if ops else 'new object', mode), case,
+                'state after the last generate() / hourly records / written file differ from a new object with the same '
+                'parameter values in a fresh plain interpreter: %s%s' % (d, extra),
+                'identical state digest after generate(), bit-identical hourly records, identical file')
+        if doc['class_level_changes']:
+            report('module- and class-level data of the package unchanged by operations on models (%s)' % mode, case,
+                   'the digest of the package-level data changed at operation(s) %s' % doc['class_level_changes'][:4],
+                   'no operation on a model changes module-level or class-level data (another model would read it)',
+                   kind='class-level')
+    # route: `uwg simulate param` (plain and -O) writes the file of the reference
+    for opt in (False, True):
+        n += 1
+        od = os.path.join(work, 'cc_cli%d' % opt)
+        os.makedirs(od, exist_ok=True)
+        rc, so, se = G.cli(['simulate', 'param', pfile, U.rp(U.EPW_SGP), '--new-epw-dir', od, '--new-epw-name', 'o.epw'],
+                           optimize=opt)
+        op_ = os.path.join(od, 'o.epw')
+        got = G.file_hash(op_) if os.path.exists(op_) else None
+        br['command line'] = br.get('command line', 0) + 1
+        if rc != 0 or got != ref['B']['obs']['finalrec']['file']:
+            report('generate_depends_on_params_only: the command line route', {
+                'command': 'python %s-m uwg simulate param <shipped Singapore parameters, nDay 1> <Singapore epw>' % ('-O ' if opt else '')},
+                'exit status %s; written file %s' % (rc, 'differs from' if got else 'missing;'),
+                'the file a new object with these parameters writes')
+    chk.direct('circumstances(fresh processes: python / python -O / CLI; other models; observers; class-level data)', n, n,
+               'each history is run in a FRESH interpreter, once plain and once with -O, and its final generate(); '
+               'simulate(); write_epw() is compared (state digest after generate incl. BEM and Sch, hourly records, '
+               'file hash) with a NEW object in a fresh plain interpreter that did nothing else - not with a new object '
+               'of the same process, which a class-level memory would pollute as well. Histories (%d): run twice; '
+               'overrides set / run / unset; autosize on / run / off; ANOTHER model alive in the process - one whose '
+               'custom replaces a DOE archetype of this stock with its own schedule set, generated before, or generated '
+               'and simulated between two runs, one with overrides and autosize; an object with a custom reference '
+               'building (DOE archetype replaced / new type) run twice; two models built from ONE dictionary object of which '
+               'the first gets overrides and runs; rural file changed by path; the whole history '
+               'while repr / str / ToString of every reachable object is taken after each call and every 41st step '
+               'under DEBUG logging. New objects in fresh -O processes and `python [-O] -m uwg simulate param` give the '
+               'reference too. In every process the digest of all module- and class-level data of the package is taken '
+               'after every operation and must never change' % len(mem), mismatches=bad, branches=br)
+
+
 def run(chk):
     chk.proof(MODULE, THEOREMS)
     if chk.tier == 'thorough':
@@ -768,6 +964,7 @@ def run(chk):
                mismatches=bad2)
     extended_histories(chk, work, uwg)
     third_round_histories(chk, work, uwg)
+    circumstances(chk, work, uwg)
     chk.assumptions.append('the physics is uninterpreted in the theorem (any machine); the tie checks that the '
                            'real generate() has the modelled shape (reload pristine library, apply current '
                            'parameters) on generated histories')
